@@ -23,9 +23,9 @@ use std::sync::Arc;
 pub struct Workload {
     pub threads: Vec<Vec<Vec<i64>>>, // thread -> ops -> [code, a, b]
 }
-pub const OPS: [&str; 15] = [
+pub const OPS: [&str; 16] = [
     "create_a_same", "create_a_old_caller", "create_a_new_caller", "create_b", "call", "call_cb", "call_mk", "call_take", "shared_inc", "shared_write", "shared_read", "shared_append", "lib",
-    "create_incompatible", "lib_missing",
+    "create_incompatible", "lib_missing", "lib_noiface",
 ];
 pub fn opcode(n: &str) -> i64 {
     OPS.iter().position(|x| *x == n).unwrap_or(4) as i64
@@ -66,7 +66,7 @@ impl Workload {
         h.0
     }
     pub fn uses_lib(&self) -> bool {
-        self.threads.iter().flatten().any(|o| OPS[(o[0] as usize) % OPS.len()] == "lib")
+        self.threads.iter().flatten().any(|o| ["lib", "lib_noiface"].contains(&OPS[(o[0] as usize) % OPS.len()]))
     }
 }
 pub fn gen_workload(seed: u64, allow_lib: bool) -> Workload {
@@ -89,6 +89,10 @@ pub fn gen_workload(seed: u64, allow_lib: bool) -> Workload {
     }
     if fam_lib {
         pool.extend(["lib", "lib"]);
+        if rng.chance(1, 2) {
+            // a probe for an interface the plugin does not export (must fail, and must leave the plugin usable)
+            pool.extend(["lib_noiface"]);
+        }
     }
     // error paths: a negotiation that must fail, a library that does not exist
     if rng.chance(1, 3) {
@@ -287,6 +291,18 @@ pub fn run_thread(tid: usize, ops: &[Vec<i64>], shared: &Arc<AbiConnection<dyn S
                 tester.lock().unwrap().on_return(tid, r).ok();
                 out.push("shared".into()); // the value is judged by the linearizability tester, not by equality
             }
+            #[cfg(not(simconc_std))]
+            "lib_noiface" => match LIB_PATH.get() {
+                Some(p0) => {
+                    let p = &if a % 2 == 1 { format!("{}.copy.so", p0) } else { p0.clone() };
+                    let r = AbiConnection::<dyn IfB>::load_shared_library(p);
+                    out.push(match r {
+                        Ok(_) => "no such interface: LOADED".to_string(),
+                        Err(e) => format!("no such interface: error {}", format!("{:?}", e).chars().take(16).collect::<String>()),
+                    });
+                }
+                None => out.push("noop".into()),
+            },
             #[cfg(not(simconc_std))]
             "lib" => match LIB_PATH.get() {
                 Some(p0) => {
